@@ -131,7 +131,10 @@ Definition keys_in (ps : list (bytes * bytes)) (allowed : list String.string) : 
 Definition sec_opts_known (s : fsection) : bool := keys_in (fs_opts s) (known_keys (fs_id s)).
 Definition opts_known (f : ffile) : bool := forallb sec_opts_known (ff_sections f).
 
-(* finding D15 (meta-line-endings-not-reserialisable): write_meta() has no line_endings parameter *)
+(* finding D15 (meta-line-endings-not-reserialisable): write_meta() has no line_endings parameter.  Repaired in
+   pydiffx (the DOM writer drops the option for metadata sections), so this is NO LONGER a premise of C06_foreign;
+   the predicate is kept to describe files: it is the second component of DomForeignFacts.other_premises, false
+   for the example C06_foreign_meta_line_endings_ok. *)
 Definition sec_no_meta_le (s : fsection) : bool :=
   match sid_kind (fs_id s) with
   | SMeta => match opt "line_endings" (fs_opts s) with None => true | Some _ => false end
